@@ -1,5 +1,6 @@
 //! nvc — shared machinery for the Neumann model-checking harnesses.
 pub mod crash;
+pub mod crashx;
 pub mod env;
 pub mod par;
 pub mod report;
